@@ -200,6 +200,10 @@ func (r *rRec) hook(point string, who any, n int64) {
 		}
 	case "tp.limit.discarded":
 		r.add(rEv{K: "limit", C: r.us()})
+	case "cp.stopper.woken":
+		if r.stopDelay > 0 {
+			time.Sleep(r.stopDelay) // schedule control: the users pool's stop goroutine is slow to set its flag
+		}
 	case "file.stage.begin", "file.stage.end":
 		var env []string
 		for _, k := range r.envKeys {
@@ -466,6 +470,7 @@ func runOne(c *ctx, rc rCase, m *metrics.Metrics) rTrace {
 			time.Sleep(time.Duration(rc.cfg.CancelUs) * time.Microsecond)
 			rec.add(rEv{K: "cancel", C: rec.us()})
 			cancel()
+			rec.add(rEv{K: "cancelret", C: rec.us()}) // the context is done from here on, whatever the clocks say
 		}()
 	}
 	g0, _ := leakedF1Goroutines()
@@ -711,11 +716,14 @@ func buildCases(c *ctx) []rCase {
 		rc.cfg.CancelUs = 50 * ms
 		rc.cfg.SetupUs = 300 * ms
 		add(rc)
-		ru := rCase{cfg: rCfg{Name: "cancel-during-setup-users", Mode: "users", Conc: 3, MaxDurUs: 3000 * ms, CancelUs: 50 * ms, SetupUs: 300 * ms},
-			build: func(func(api.RateFunction) api.RateFunction) (*api.Trigger, error) {
-				return users.Rate().New(users.Rate().Flags)
-			}, bodyMaxUs: 1000}
-		add(ru)
+		for _, conc := range []int{3, 16, 64} {
+			ru := rCase{cfg: rCfg{Name: "cancel-during-setup-users", Mode: "users", Conc: conc, MaxDurUs: 3000 * ms, CancelUs: 50 * ms, SetupUs: 300 * ms,
+				StopDelayUs: int64(conc/16) * 3 * ms},
+				build: func(func(api.RateFunction) api.RateFunction) (*api.Trigger, error) {
+					return users.Rate().New(users.Rate().Flags)
+				}, bodyMaxUs: 1000}
+			add(ru)
+		}
 	}
 	// a pool that takes longer than the tick interval to start (many workers, short interval)
 	{
